@@ -34,6 +34,10 @@ macro_rules! cfg_huge {
 }
 
 fn main() {
+    vengine::on_worker_stack(real_main);
+}
+
+fn real_main() {
     let mut run = Run::from_args("C03", "c03");
     vcore::core_configs!(cfg, run);
     cfg_huge!(run, d8, 1024, BigRef);
